@@ -11,7 +11,7 @@ import (
 func init() {
 	register(&propInfo{
 		ID:          "C12",
-		Explanation: "Value-origin and path analysis of method naming and dispatch: (R12.1) the key under which a handler method is registered is the result of the handler's own configured name formatter applied to (namespace argument, reflected method name); the name a client function sends is its configured formatter's result or, when present, the rpc_method tag; both formatter fields are filled from the respective configuration; the wire request carries exactly that name; (R12.2) in every function resolving a method, the alias table is consulted only after the direct lookup failed, its result is looked up in the method table, and the handler that runs is the one found; (R12.3) a failed parameter decode is tested at once and its failure branch reaches neither another decode nor the handler without an intervening error test; the arity test guards every positional-params path to the handler. (R12.5) the method descriptor is read after name and alias resolution.",
+		Explanation: "Value-origin and path analysis of method naming and dispatch: (R12.1) the key under which a handler method is registered is the result of the handler's own configured name formatter applied to (namespace argument, reflected method name); the name a client function sends is its configured formatter's result or, when present, the rpc_method tag; both formatter fields are filled from the respective configuration; the wire request carries exactly that name; (R12.2) in every function resolving a method, the alias table is consulted only after the direct lookup failed, its result is looked up in the method table, and the handler that runs is the one found; (R12.3) a failed parameter decode is tested at once and its failure branch reaches neither another decode nor the handler without an intervening error test; the arity test guards every positional-params path to the handler. (R12.5) the method descriptor is read after name and alias resolution. (R12.6) the only rejections before the handler are unknown name and alias, unsupported channel mode and bad params; (R12.7) an alias is recorded unconditionally.",
 		NotDecided:  "What formatter functions return (string values), namespace non-leakage between namespaces (a consequence of string equality on formatted names), type mismatches detected by encoding/json itself.",
 		Assumptions: []string{"the method table is the map[string]<struct> field of the dispatcher's receiver; the alias table its map[string]string field"},
 		Run:         runC12,
